@@ -12,7 +12,8 @@ RULE = ("integer-coordinate tree sequences: msprime (Kingman/Beta/Dirac, histori
         "random DAG tables (each node picks a parent per interval; tied node times in 30%); ~40% of all inputs "
         "(detector-level and end-to-end) decorated by gen.exotic (extra node flag bits, ALL nodes renumbered so samples "
         "are not ids 0..n-1, mutations above roots, mutation-free sites, arbitrary states, populations); x three masks "
-        "(samples, none, random); skip_samples / allow_unary also passed as np.bool_, 0/1 and None. "
+        "(samples, none, random); 25% with chromosome-scale integer coordinates (next to 2^24, 2^25, 2^31, 1e8, 3e8); "
+        "skip_samples / allow_unary also passed as np.bool_, 0/1 and None. "
         "A case is non-trivial when the table has at least one edge; distinct by content hash")
 ASSUME = ["tskit's edge insertion/removal indexes and edge intervals satisfy valid_tablesb (checked on every "
           "generated input inside Coq, and valid_tablesb is proved to imply the theorems' hypotheses)",
